@@ -122,6 +122,9 @@ pub struct Net {
     pub progress: u64,
     /// eager delivery: a sent message is visible at once
     pub eager: bool,
+    /// a send never completes in its first poll (models a transport whose send takes time, so that
+    /// overlapping sends to one peer are observable whatever the capacity)
+    pub send_yields: bool,
 }
 
 fn fnv(h: &mut u64, x: u64) {
@@ -159,6 +162,7 @@ impl Net {
             ilv_hash: 0xcbf29ce484222325,
             progress: 0,
             eager: false,
+            send_yields: false,
         }
     }
 
@@ -269,6 +273,7 @@ impl SimChan {
 }
 
 struct SendFut<'a> {
+    yielded: bool,
     ch: &'a SimChan,
     to: usize,
     data: Option<Vec<u8>>,
@@ -305,6 +310,11 @@ impl Future for SendFut<'_> {
                 net.outstanding_violation =
                     Some(format!("party {me} has {o} sends outstanding to {to} (latest label '{}')", self.label));
             }
+        }
+        if net.send_yields && !self.yielded {
+            self.yielded = true;
+            cx.waker().wake_by_ref();
+            return Poll::Pending;
         }
         if net.closed[to] {
             self.done = true;
@@ -449,7 +459,7 @@ impl Channel for SimChan {
     type RecvError = ChanErr;
 
     async fn send_bytes_to(&self, party: usize, data: Vec<u8>, phase: &str) -> Result<(), ChanErr> {
-        SendFut { ch: self, to: party, data: Some(data), label: phase.to_string(), label_id: 0, started: false, done: false }.await
+        SendFut { yielded: false, ch: self, to: party, data: Some(data), label: phase.to_string(), label_id: 0, started: false, done: false }.await
     }
 
     async fn recv_bytes_from(&self, party: usize, phase: &str) -> Result<Vec<u8>, ChanErr> {
